@@ -141,6 +141,7 @@ theorem parseLit_repr (np : Nat → Bool) (v : Val) (hv : ValidVal v) (rest : Li
   cases v with
   | bool b => cases b <;> simp [reprVal, parseLit]
   | none => simp [reprVal, parseLit]
+  | emptyList => simp [reprVal, parseLit]
   | int i =>
     have hdig := decimal_digits i.natAbs
     have hval := digitsVal_decimal i.natAbs
@@ -148,7 +149,8 @@ theorem parseLit_repr (np : Nat → Bool) (v : Val) (hv : ValidVal v) (rest : Li
     by_cases hneg : i < 0
     · simp only [hneg, ↓reduceIte, List.cons_append, parseLit]
       simp only [show ¬ ((45 : Nat) = 84) by decide, show ¬ ((45 : Nat) = 70) by decide,
-        show ¬ ((45 : Nat) = 78) by decide, show ¬ ((45 : Nat) = 39 ∨ (45 : Nat) = 34) by decide, ↓reduceIte,
+        show ¬ ((45 : Nat) = 78) by decide, show ¬ ((45 : Nat) = 91) by decide,
+        show ¬ ((45 : Nat) = 39 ∨ (45 : Nat) = 34) by decide, ↓reduceIte,
         spanDigits_digits _ rest hdig, hval, Option.map_some]
       congr 3
       show -((i.natAbs : Nat) : Int) = i
@@ -163,7 +165,7 @@ theorem parseLit_repr (np : Nat → Bool) (v : Val) (hv : ValidVal v) (rest : Li
         rw [hd] at hspan hval
         simp only [List.cons_append] at hspan
         simp only [List.cons_append, parseLit]
-        simp only [show ¬ (b = 84) by omega, show ¬ (b = 70) by omega, show ¬ (b = 78) by omega,
+        simp only [show ¬ (b = 84) by omega, show ¬ (b = 70) by omega, show ¬ (b = 78) by omega, show ¬ (b = 91) by omega,
           show ¬ (b = 39 ∨ b = 34) by omega, show ¬ (b = 45) by omega, ↓reduceIte, hspan, hval, Option.map_some]
         congr 3
         show ((i.natAbs : Nat) : Int) = i
@@ -179,11 +181,11 @@ theorem parseLit_repr (np : Nat → Bool) (v : Val) (hv : ValidVal v) (rest : Li
     rcases hq with hq | hq
     · rw [hq] at this ⊢
       simp only [show ¬ ((39 : Nat) = 84) by decide, show ¬ ((39 : Nat) = 70) by decide,
-        show ¬ ((39 : Nat) = 78) by decide, true_or, ↓reduceIte]
+        show ¬ ((39 : Nat) = 78) by decide, show ¬ ((39 : Nat) = 91) by decide, true_or, ↓reduceIte]
       rw [this]; simp
     · rw [hq] at this ⊢
       simp only [show ¬ ((34 : Nat) = 84) by decide, show ¬ ((34 : Nat) = 70) by decide,
-        show ¬ ((34 : Nat) = 78) by decide, or_true, ↓reduceIte]
+        show ¬ ((34 : Nat) = 78) by decide, show ¬ ((34 : Nat) = 91) by decide, or_true, ↓reduceIte]
       rw [this]; simp
 
 /-! ### the module body -/
